@@ -15,8 +15,9 @@ from collections.abc import Callable, Iterable, Sequence
 from typing import Any
 
 VERIF_DIR = os.path.dirname(os.path.dirname(os.path.abspath(__file__)))
-EVIDENCE_DIR = os.path.join(VERIF_DIR, "evidence")
-REPLAY_DIR = os.path.join(VERIF_DIR, "replays")
+# VERIF_EVIDENCE_DIR / VERIF_REPLAY_DIR: only for runs against scratch copies (mutants, seeded changes)
+EVIDENCE_DIR = os.environ.get("VERIF_EVIDENCE_DIR") or os.path.join(VERIF_DIR, "evidence")
+REPLAY_DIR = os.environ.get("VERIF_REPLAY_DIR") or os.path.join(VERIF_DIR, "replays")
 FINDINGS_FILE = os.path.join(VERIF_DIR, "KNOWN_FINDINGS.txt")
 
 CHECKS = ("C13", "C14", "C15", "C17")
